@@ -226,6 +226,17 @@ def run(tier, seed):
                     scheds.append(login + pre + [["send", 1, "EPSV"], ["send", 1, (verb + " " + arg).strip()]] + mid
                                   + [["dconnect", 1], ["deof", 1], ["send", 1, "PWD"], ["send", 1, "QUIT"]])
     corecheck.validate(chk, gen.std_cfg(ns=1), gen.STD_TREE, scheds, label="listing-wire")
+    # a backend that fails on the n-th stat / is_file / is_dir / exists / list step of a listing or a stat: the answer is the failure
+    # (451) or the whole truth - never a success reply over a listing with an entry missing or its facts incomplete
+    faulty = []
+    for verb, arg in (("LIST", ""), ("MLSD", ""), ("LIST", "d"), ("MLSD", "d"), ("MLST", "f"), ("MLST", "d")):
+        for op in ("stat", "is_file", "is_dir", "exists", "list"):
+            for nth in (1, 2, 3, 4):
+                st = login + [["fault", 1, op, nth]]
+                st += ([["send", 1, "MLST " + arg]] if verb == "MLST" else [["send", 1, "EPSV"], ["dconnect", 1], ["send", 1, (verb + " " + arg).strip()], ["deof", 1]])
+                faulty.append(st + [["send", 1, "PWD"], ["send", 1, "QUIT"]])
+    for b in ("memory", "path"):
+        corecheck.validate(chk, gen.std_cfg(ns=1, backend=b), gen.STD_TREE, faulty if tier != "quick" else faulty[::2], label="listing-faults:" + b)
     # what a listing or a stat says is the truth about its own entries also when another session lists or stats something else
     # (another file of another size) while one of this listing's backend calls is in flight
     from checks import c17
